@@ -531,6 +531,26 @@ Inductive texpr : Set :=
 		fmt.Fprintf(&sb, "Definition %s : texpr := %s. (* %s  at %s *)\n", e.CoqName(), coqExpr(e.E), strings.ReplaceAll(e.Src, "*)", "* )"), e.Where)
 	}
 	sb.WriteString("\n")
+	sb.WriteString("\n(* Literals written inline in function bodies of ./common/... and ./contracts/... , in source\n   order: integer/character literals (with repetitions) and string literals without a space. *)\n")
+	seenL := map[string]int{}
+	for _, l := range p.Lits {
+		base := "p_" + l.Pkg + "_" + l.Func
+		seenL[base]++
+		if seenL[base] > 1 {
+			base = fmt.Sprintf("%s_%d", base, seenL[base])
+		}
+		if len(l.IntLits) > 0 {
+			xs := make([]string, len(l.IntLits))
+			for i, z := range l.IntLits {
+				xs[i] = z.String()
+			}
+			fmt.Fprintf(&sb, "Definition %s_intlits : list Z := [%s]%%Z. (* %s *)\n", base, strings.Join(xs, "; "), l.Where)
+		}
+		if len(l.StrLits) > 0 {
+			fmt.Fprintf(&sb, "Definition %s_strlits : list string := %s. (* %s *)\n", base, coqStrList(l.StrLits), l.Where)
+		}
+	}
+	sb.WriteString("\n")
 	fmt.Fprintf(&sb, "Definition p_version_file : string := %s. (* VERSION, trailing newline removed *)\n", coqStr(p.VersionFile))
 	fmt.Fprintf(&sb, "Definition p_contracts_fsContracts_list : list string := %s.\n", coqStrList(p.FsContracts))
 	fmt.Fprintf(&sb, "Definition p_contracts_mainContracts_list : list string := %s.\n", coqStrList(p.MainContracts))
